@@ -32,7 +32,7 @@ theorem getElem_append_mid (P S : List Nat) (s : Nat) : (P ++ s :: S)[P.length]?
     sequence's indices, is the Spec's `nsmAfter` from position `|P|` -/
 theorem sweep_gather (ocs : Classes) (v : BidiClass) (hv : v ≠ BN) :
     ∀ (S P : List Nat) (xs : Classes) (fuel : Nat), (P ++ S).Nodup → (∀ i ∈ P ++ S, i < xs.length) →
-      NoBN xs → S.length ≤ fuel →
+      NoBN xs → S.length ≤ fuel → (∀ i ∈ S, (cget ocs i).removedByX9 = false) →
       (setWhileNsmOrBN ocs xs S v).length = xs.length ∧ NoBN (setWhileNsmOrBN ocs xs S v) ∧
       (∀ j, j ∉ S → cget (setWhileNsmOrBN ocs xs S v) j = cget xs j) ∧
       (P ++ S).map (cget (setWhileNsmOrBN ocs xs S v)) =
@@ -41,19 +41,19 @@ theorem sweep_gather (ocs : Classes) (v : BidiClass) (hv : v ≠ BN) :
   intro S
   induction S with
   | nil =>
-    intro P xs fuel _ _ hnb _
+    intro P xs fuel _ _ hnb _ _
     refine ⟨rfl, hnb, fun _ _ => rfl, ?_⟩
     simp only [setWhileNsmOrBN, List.append_nil]
     cases fuel with
     | zero => rfl
     | succ f => simp [Spec.n0One.nsmAfter]
   | cons s S ih =>
-    intro P xs fuel hnd hlt hnb hfuel
+    intro P xs fuel hnd hlt hnb hfuel hrem
     obtain ⟨f, rfl⟩ : ∃ f, fuel = f + 1 := ⟨fuel - 1, by simp at hfuel; omega⟩
-    have hb : (cget xs s == BN) = false := by simpa using hnb s
+    have hb : (cget ocs s).removedByX9 = false := hrem s (by simp)
     have hcond : ((P ++ s :: S).map (fun u => cget ocs u == NSM)).getD P.length false = (cget ocs s == NSM) := by
       simp [List.getD_eq_getElem?_getD]
-    simp only [setWhileNsmOrBN, hb, Bool.or_false, Spec.n0One.nsmAfter, hcond]
+    simp only [setWhileNsmOrBN, hb, Spec.n0One.nsmAfter, hcond]
     by_cases hc : (cget ocs s == NSM) = true
     · simp only [hc, if_true]
       have hnd' : ((P ++ [s]) ++ S).Nodup := by simpa using hnd
@@ -61,7 +61,7 @@ theorem sweep_gather (ocs : Classes) (v : BidiClass) (hv : v ≠ BN) :
       have hlt' : ∀ i ∈ (P ++ [s]) ++ S, i < (xs.set s v).length := by
         intro i hi; rw [List.length_set]; exact hlt i (by simpa using hi)
       obtain ⟨i1, i2, i3, i4⟩ := ih (P ++ [s]) (xs.set s v) f hnd' hlt' (hnb.set s hv)
-        (by simp at hfuel; omega)
+        (by simp at hfuel; omega) (fun i hi => hrem i (by simp [hi]))
       have hsS : s ∉ S := by
         have := List.nodup_append.1 hnd
         exact (List.nodup_cons.1 this.2.1).1
@@ -94,7 +94,8 @@ theorem n0Pair_units (t : Text) (hwf : t.WF) (h1 : ∀ s ∈ t.segs, s.len = 1) 
     (hbw : seq.iterBackwardsFrom pair.start pair.startRun = A.reverse)
     (hM : ∀ i ∈ M, i < pair.stop)
     (hnd : seq.indices.Nodup) (hlt : ∀ i ∈ seq.indices, i < pcs.length)
-    (hstart : pair.start < t.len) (hstop : pair.stop < t.len) :
+    (hstart : pair.start < t.len) (hstop : pair.stop < t.len)
+    (hocs : ∀ u ∈ seq.indices, (cget ocs u).removedByX9 = false) :
     ∃ pcs', n0Pair t seq e ocs (pcs, none) pair = (pcs', none) ∧ pcs'.length = pcs.length ∧ NoBN pcs' ∧
       (∀ j, j ∉ seq.indices → cget pcs' j = cget pcs j) ∧
       seq.indices.map (cget pcs') =
@@ -174,7 +175,7 @@ theorem n0Pair_units (t : Text) (hwf : t.WF) (h1 : ∀ s ∈ t.segs, s.len = 1) 
     have hs1 := sweep_gather ocs v hv (M ++ c :: Z) (A ++ [o]) ((pcs.set o v).set c v)
       (((seq.indices.map (cget pcs)).set A.length v).set (A.length + 1 + M.length) v).length
       (by rw [← hU1]; exact hnd) (by rw [← hU1, hXl]; exact hlt) hX
-      (by simp [hU]; omega)
+      (by simp [hU]; omega) (fun i hi => hocs i (by rw [hU1]; exact List.mem_append_right _ hi))
     rw [← hU1, hg2] at hs1
     obtain ⟨a1, a2, a3, a4⟩ := hs1
     simp only [List.length_append, List.length_singleton] at a4
@@ -186,7 +187,7 @@ theorem n0Pair_units (t : Text) (hwf : t.WF) (h1 : ∀ s ∈ t.segs, s.len = 1) 
         (((seq.indices.map (cget pcs)).set A.length v).set (A.length + 1 + M.length) v).length (A.length + 1)
         (((seq.indices.map (cget pcs)).set A.length v).set (A.length + 1 + M.length) v)).length
       (by rw [← hU2]; exact hnd) (by rw [← hU2, a1, hXl]; exact hlt) a2
-      (by rw [← a4]; simp [hU]; omega)
+      (by rw [← a4]; simp [hU]; omega) (fun i hi => hocs i (by rw [hU2]; exact List.mem_append_right _ hi))
     rw [← hU2, a4] at hs2
     obtain ⟨b1, b2, b3, b4⟩ := hs2
     have hlen2 : (A ++ o :: (M ++ [c])).length = A.length + 1 + M.length + 1 := by simp; omega
@@ -368,7 +369,8 @@ theorem n0Pair_at (t : Text) (hwf : t.WF) (h1 : ∀ s ∈ t.segs, s.len = 1) (se
     (e : BidiClass) (he : e = L ∨ e = R) (hs : seq.sos = L ∨ seq.sos = R)
     (ocs pcs : Classes) (hnb : NoBN pcs) (hsorted : seq.indices.Pairwise (· < ·))
     (hlt : ∀ i ∈ seq.indices, i < pcs.length) (hpl : pcs.length = t.len)
-    (p : BracketPair) (sp : Nat × Nat) (hat : PairAt seq p sp) :
+    (p : BracketPair) (sp : Nat × Nat) (hat : PairAt seq p sp)
+    (hocs : ∀ u ∈ seq.indices, (cget ocs u).removedByX9 = false) :
     ∃ pcs', n0Pair t seq e ocs (pcs, none) p = (pcs', none) ∧ pcs'.length = pcs.length ∧ NoBN pcs' ∧
       (∀ j, j ∉ seq.indices → cget pcs' j = cget pcs j) ∧
       seq.indices.map (cget pcs') =
@@ -416,7 +418,7 @@ theorem n0Pair_at (t : Text) (hwf : t.WF) (h1 : ∀ s ∈ t.segs, s.len = 1) (se
     ((seq.indices.drop (sp.1 + 1)).take (sp.2 - (sp.1 + 1))) (seq.indices.drop (sp.2 + 1))
     hUsplit (by rw [s2]; exact hmid) e2 s3 hM hnd hlt
     (by rw [← hpl]; exact hlt _ (by rw [← hU1]; exact List.getElem_mem _))
-    (by rw [← hpl]; exact hlt _ (by rw [← hU2]; exact List.getElem_mem _))
+    (by rw [← hpl]; exact hlt _ (by rw [← hU2]; exact List.getElem_mem _)) hocs
   have hl1 : (seq.indices.take sp.1).length = sp.1 := by rw [List.length_take]; omega
   have hl2 : (seq.indices.take sp.1).length + 1 +
       ((seq.indices.drop (sp.1 + 1)).take (sp.2 - (sp.1 + 1))).length = sp.2 := by
@@ -457,7 +459,8 @@ theorem n12_noBN (seq : IRSeq) (e : BidiClass) (he : e ≠ BN) (pcs : Classes) (
 
 theorem n0_fold_at (t : Text) (hwf : t.WF) (h1 : ∀ s ∈ t.segs, s.len = 1) (seq : IRSeq)
     (e : BidiClass) (he : e = L ∨ e = R) (hs : seq.sos = L ∨ seq.sos = R)
-    (ocs : Classes) (hsorted : seq.indices.Pairwise (· < ·)) :
+    (ocs : Classes) (hsorted : seq.indices.Pairwise (· < ·))
+    (hocs : ∀ u ∈ seq.indices, (cget ocs u).removedByX9 = false) :
     ∀ (zs : List (BracketPair × (Nat × Nat))) (pcs : Classes), NoBN pcs →
       (∀ i ∈ seq.indices, i < pcs.length) → pcs.length = t.len → (∀ z ∈ zs, PairAt seq z.1 z.2) →
       ∃ pcs', (zs.map (·.1)).foldl (n0Pair t seq e ocs) (pcs, none) = (pcs', none) ∧
@@ -471,7 +474,7 @@ theorem n0_fold_at (t : Text) (hwf : t.WF) (h1 : ∀ s ∈ t.segs, s.len = 1) (s
   | cons z zs ih =>
     intro pcs hnb hlt hpl hat
     obtain ⟨pcs1, q1, q2, q3, q4, q5⟩ := n0Pair_at t hwf h1 seq e he hs ocs pcs hnb hsorted hlt hpl z.1 z.2
-      (hat z (by simp))
+      (hat z (by simp)) hocs
     obtain ⟨pcs2, r1, r2, r3, r4, r5⟩ := ih pcs1 q3 (by rw [q2]; exact hlt) (by rw [q2]; exact hpl)
       (fun y hy => hat y (by simp [hy]))
     refine ⟨pcs2, ?_, by rw [r2, q2], r3, fun j hj => by rw [r4 j hj, q4 j hj], ?_⟩
@@ -570,7 +573,7 @@ theorem stageN_runs (ds : DataSource) (t : Text) (hwf : t.WF) (h1 : ∀ s ∈ t.
     refine ⟨hl.1, ?_, ?_, hq.2.1, hq.2.2⟩
     · rw [heq.1, List.getD_eq_getElem?_getD, List.getElem?_eq_getElem (by omega)]; rfl
     · rw [heq.2, List.getD_eq_getElem?_getD, List.getElem?_eq_getElem hl.2]; rfl
-  obtain ⟨pcs', f1, f2, f3, f4, f5⟩ := n0_fold_at t hwf h1 seq e he hs ocs hinc (mpairs.zip spairs) pcs hnb hlt hpl hat
+  obtain ⟨pcs', f1, f2, f3, f4, f5⟩ := n0_fold_at t hwf h1 seq e he hs ocs hinc hocs (mpairs.zip spairs) pcs hnb hlt hpl hat
   rw [hz1] at f1
   rw [hz2] at f5
   rw [f1]
